@@ -6,9 +6,9 @@
    Route: validator = recogniser sp_pattern (FragSim.v, symbolic execution of the model on fragment inputs),
           sp_pattern <-> Pattern (FragGrammar.v, soundness by induction on the fuel, completeness by induction on the
           derivation with follow-set conditions).
-   NOT covered: everything outside the fragment (see Grammar.v header): decimal escapes (back-references) and legacy octal
-   escapes, property escapes, classes, named groups and `\k`, and their early errors; braced quantifiers whose bounds are
-   2^63 or more (the implementation saturates there, the grammar's early error compares the exact values). *)
+   NOT covered: everything outside the fragment (see Grammar.v header): property escapes, classes, named groups and `\k`,
+   and their early errors; braced quantifiers and decimal escapes whose numbers are 2^63 or more (the implementation
+   saturates there, the grammar compares the exact values); the early error "NcapturingParens >= 2^32 - 1". *)
 From Coq Require Import List NArith Bool.
 From V Require Import Common.Str Regex.Reader Regex.Validator Regex.ValidatorReset Regex.ValidatorTotal
   Regex.Grammar Regex.FragParser Regex.FragGrammar Regex.FragSim.
@@ -176,6 +176,36 @@ Example ex_escapes_invalid_both : forall st u l, In l ex_escapes_invalid ->
   ~ Pattern u (visible_units l u) /\ verdict_of (validate_pattern st l u) <> VOk.
 Proof.
   intros st u l Hin. unfold ex_escapes_invalid in Hin. cbn [In] in Hin.
+  repeat (destruct Hin as [<-|Hin]; [destruct u; decide_both|]). contradiction.
+Qed.
+
+(* back-references.  Patterns in both modes:  (a)\1  \1(a)  ((a))\2  (?=(a))\1  (a)(b)(c)(d)(e)(f)(g)(h)(i)(j)\10 *)
+Definition ex_backrefs : list (list N) :=
+  [[40;97;41;92;49]; [92;49;40;97;41]; [40;40;97;41;41;92;50]; [40;63;61;40;97;41;41;92;49];
+   [40;97;41;40;98;41;40;99;41;40;100;41;40;101;41;40;102;41;40;103;41;40;104;41;40;105;41;40;106;41;92;49;48]].
+Example ex_backrefs_valid : forall st u l, In l ex_backrefs ->
+  Pattern u (visible_units l u) /\ verdict_of (validate_pattern st l u) = VOk.
+Proof.
+  intros st u l Hin. unfold ex_backrefs in Hin. cbn [In] in Hin.
+  repeat (destruct Hin as [<-|Hin]; [destruct u; decide_both|]). contradiction.
+Qed.
+(* Annex B: a decimal escape beyond the number of groups is a legacy octal escape or an identity escape without u and an
+   early error with u:  \1  (a)\2  \8  \18  \00  \07  \377  \400  \08  (?:a)\1  \(\1  (a)\18 *)
+Definition ex_backrefs_annexb : list (list N) :=
+  [[92;49]; [40;97;41;92;50]; [92;56]; [92;49;56]; [92;48;48]; [92;48;55]; [92;51;55;55]; [92;52;48;48]; [92;48;56];
+   [40;63;58;97;41;92;49]; [92;40;92;49]; [40;97;41;92;49;56]].
+Example ex_backrefs_annexb_modes : forall st l, In l ex_backrefs_annexb ->
+  (Pattern false l /\ verdict_of (validate_pattern st l false) = VOk) /\
+  (~ Pattern true l /\ verdict_of (validate_pattern st l true) <> VOk).
+Proof.
+  intros st l Hin. unfold ex_backrefs_annexb in Hin. cbn [In] in Hin.
+  repeat (destruct Hin as [<-|Hin]; [split; decide_both|]). contradiction.
+Qed.
+(* not Patterns in either mode:  \1**  (\1  \1{2,1} *)
+Example ex_backrefs_invalid : forall st u l, In l [[92;49;42;42]; [40;92;49]; [92;49;123;50;44;49;125]] ->
+  ~ Pattern u (visible_units l u) /\ verdict_of (validate_pattern st l u) <> VOk.
+Proof.
+  intros st u l Hin. cbn [In] in Hin.
   repeat (destruct Hin as [<-|Hin]; [destruct u; decide_both|]). contradiction.
 Qed.
 
